@@ -219,11 +219,34 @@ func runGio(c *Ctx) {
 			lit  *ast.FuncLit
 		}
 		var pumps []pump
+		// go func() { pump(a, b, cb) }(): a parameterless literal whose body is one call is looked through
+		thin := func(ev *core.Event) *ast.CallExpr {
+			if ev.FunVal.Kind != core.VFuncLit || ev.FunVal.Lit.Type.Params.NumFields() != 0 || len(ev.FunVal.Lit.Body.List) != 1 {
+				return nil
+			}
+			es, ok := ev.FunVal.Lit.Body.List[0].(*ast.ExprStmt)
+			if !ok {
+				return nil
+			}
+			call, _ := es.X.(*ast.CallExpr)
+			return call
+		}
+		goArgs := func(ev *core.Event) []ast.Expr {
+			if call := thin(ev); call != nil {
+				return call.Args
+			}
+			return ev.Call.Args
+		}
 		addPump := func(ev *core.Event) {
 			var pm pump
 			if ev.Callee != nil {
 				pm.decl = c.Prog.Decl(ev.Callee.Origin())
-			} else if ev.FunVal.Kind == core.VFuncLit {
+			} else if call := thin(ev); call != nil {
+				if f, _ := typeutil.Callee(d.Pkg.TypesInfo, call).(*types.Func); f != nil {
+					pm.decl = c.Prog.Decl(f.Origin())
+				}
+			}
+			if pm.decl == nil && ev.Callee == nil && ev.FunVal.Kind == core.VFuncLit {
 				pm.lit = ev.FunVal.Lit
 			}
 			if pm.decl == nil && pm.lit == nil {
@@ -244,10 +267,14 @@ func runGio(c *Ctx) {
 					addPump(ev)
 				}
 			}
-			ok := len(gos) == 2 && len(gos[0].Call.Args) >= 2 && len(gos[1].Call.Args) >= 2 &&
-				core.ExprString(gos[0].Call.Args[0]) == core.ExprString(gos[1].Call.Args[1]) &&
-				core.ExprString(gos[0].Call.Args[1]) == core.ExprString(gos[1].Call.Args[0]) &&
-				core.ExprString(gos[0].Call.Args[0]) != core.ExprString(gos[0].Call.Args[1])
+			ok := len(gos) == 2
+			if ok {
+				a0, a1 := goArgs(gos[0]), goArgs(gos[1])
+				ok = len(a0) >= 2 && len(a1) >= 2 &&
+					core.ExprString(a0[0]) == core.ExprString(a1[1]) &&
+					core.ExprString(a0[1]) == core.ExprString(a1[0]) &&
+					core.ExprString(a0[0]) != core.ExprString(a0[1])
+			}
 			a.note("R13c", name+"/two-swapped-pumps", d.Decl.Pos(), !ok, "two pumps are started with swapped stream arguments", "ProxyStreams does not start exactly two pumps with swapped stream arguments", p)
 		})
 		if len(pumps) == 0 {
@@ -950,7 +977,7 @@ func runGqueue(c *Ctx) {
 		c.Walk("R10", &core.Config{Follow: samePkgFollow(d.Pkg.PkgPath)}, core.Entry{Decl: d}, func(p *core.Path) {
 			g := prepare(c, p)
 			var loaded *types.Var // local holding top.Load() of this iteration
-			loadIter, iter := -1, -1
+			loadIter, iter := -1, 0 // the stretch before the first loop trip is an attempt too (rotated loops)
 			linked := false   // Push: newNode.next = loaded in this iteration
 			readNext := false // Pop: next := loaded.next in this iteration
 			casOK := false
